@@ -230,7 +230,7 @@ CHECKS = {
              "for any string lex back to exactly the original string and end at the printer's closing quotes (c06_short_string_roundtrip, "
              "c06_long_string_roundtrip, escape_preserves_newlines); table obligations t6_provn_productions, t6_provn_first_mandatory. The "
              "reader is executed on the real get_provn() text of every generated document and must recover the source's strict content; "
-             "the printer model is compared with the real text. Character level (Props/C06V, lexer as a step function lexBody + fuel): c06_value_lex / c06_value_parse (every attribute value's text is tokenised into its literal tokens and parsed into the value it denotes), c06_items_lex / c06_items_parse (attribute lists), c06_elem_lex / c06_elem_parse and the capstone c06_element: the text get_provn() prints for an entity or agent lexes and parses, under the grammar, to the element with its identifier URI and exactly its (attribute URI, value) pairs; hypotheses: names are words and resolve as meant, unescaped texts have nothing to escape, float texts are in the float table; concrete non-vacuity instance.",
+             "the printer model is compared with the real text. Character level (Props/C06V, lexer as a step function lexBody + fuel): c06_value_lex / c06_value_parse (every attribute value's text is tokenised into its literal tokens and parsed into the value it denotes), c06_items_lex / c06_items_parse (attribute lists), c06_elem_lex / c06_elem_parse, c06_rel_lex / c06_rel_parse (relations: optional identifier, positional arguments with markers and times, attribute list) and the capstones c06_element / c06_relation: the text get_provn() prints for an entity, an agent or any relation lexes and parses, under the grammar, to that record with its identifier URI, its positional arguments and exactly its (attribute URI, value) pairs; hypotheses: names are words and resolve as meant, unescaped texts have nothing to escape, float texts are in the float table; concrete non-vacuity instance.",
         note=A_COMMON + " Token-level theorem parse(print d) = abs d is not proved (covered by running the reader on real output). Known "
              "findings C06-1 (= C03-1) and C06-2 (identified/attributed alternateOf, specializationOf, mentionOf, hadMember have no "
              "production). Relations lacking a mandatory first argument are outside the domain (not expressible in PROV-N).",
